@@ -233,6 +233,11 @@ class MarkupMachine(Machine):
 class HierarchicalMarkupMachine(MarkupMachine, HierarchicalMachine):
     """Extends transitions.extensions.nesting.HierarchicalMachine with markup capabilities."""
 
+    def get_markup_config(self):
+        # the markup always describes the whole machine, also when it is requested while a nested scope is active
+        with self():
+            return super(HierarchicalMarkupMachine, self).get_markup_config()
+
 
 def rep(func, format_references=None):
     """Return a string representation for `func`."""
